@@ -73,11 +73,45 @@ fn main() {
         } else {
             String::new()
         };
+        // an allocation refused by the capped allocator is located by the innermost calamine
+        // frame of the backtrace (the panic location itself is the allocator)
+        let loc = if msg.contains("verif-alloc-cap") {
+            let bt = std::backtrace::Backtrace::force_capture().to_string();
+            let mut found = String::from("fn:unknown");
+            for l in bt.lines() {
+                let l = l.trim();
+                if let Some(i) = l.find("calamine::") {
+                    if !l.contains("verif_hooks") {
+                        found = format!("fn:{}", &l[i..]);
+                        break;
+                    }
+                }
+            }
+            found
+        } else {
+            loc
+        };
         LAST_PANIC.with(|p| *p.borrow_mut() = format!("{} @ {}", msg, loc));
     }));
+    // watchdog: a case that runs longer than VH_CASE_TIMEOUT_MS is answered "timeout" and the
+    // process exits (the driver restarts it for the remaining cases)
+    let limit_ms: u64 = std::env::var("VH_CASE_TIMEOUT_MS").ok().and_then(|v| v.parse().ok()).unwrap_or(0);
+    if limit_ms > 0 {
+        std::thread::spawn(move || loop {
+            std::thread::sleep(std::time::Duration::from_millis(50));
+            let st = CASE_START.load(Ordering::Relaxed);
+            if st != 0 {
+                let now = now_ms();
+                if now > st + limit_ms as usize {
+                    let id = CASE_ID.lock().map(|g| g.clone()).unwrap_or_default();
+                    println!("{}\ttimeout", id);
+                    let _ = io::stdout().flush();
+                    std::process::exit(3);
+                }
+            }
+        });
+    }
     let stdin = io::stdin();
-    let stdout = io::stdout();
-    let mut out = io::BufWriter::new(stdout.lock());
     for line in stdin.lock().lines() {
         let line = match line {
             Ok(l) => l,
@@ -96,23 +130,45 @@ fn main() {
         if journal {
             eprintln!("#begin {}", id);
         }
+        if let Ok(mut g) = CASE_ID.lock() {
+            *g = id.to_string();
+        }
         ALLOC_TRIPPED.store(false, Ordering::Relaxed);
         ALLOC_MAX_SEEN.store(0, Ordering::Relaxed);
+        CASE_START.store(now_ms(), Ordering::Relaxed);
         let res = std::panic::catch_unwind(std::panic::AssertUnwindSafe(|| cmds::dispatch(cmd, args)));
+        CASE_START.store(0, Ordering::Relaxed);
         let ans = match res {
             Ok(Some(s)) => s,
             Ok(None) => format!("unknown-command {}", cmd),
             Err(_) => {
                 let kind = if ALLOC_TRIPPED.load(Ordering::Relaxed) { "alloc" } else { "panic" };
                 if verbose_panics {
-                    let info = LAST_PANIC.with(|p| p.borrow().clone());
-                    format!("{}\t{}", kind, info.replace(['\t', '\n'], " "))
+                    format!("{}\t{}", kind, last_panic())
                 } else {
                     kind.to_string()
                 }
             }
         };
-        let _ = writeln!(out, "{}\t{}", id, ans);
-        let _ = out.flush();
+        println!("{}\t{}", id, ans);
+        let _ = io::stdout().flush();
     }
+}
+
+pub static CASE_START: AtomicUsize = AtomicUsize::new(0);
+pub static CASE_ID: std::sync::Mutex<String> = std::sync::Mutex::new(String::new());
+
+fn now_ms() -> usize {
+    std::time::SystemTime::now()
+        .duration_since(std::time::UNIX_EPOCH)
+        .map(|d| d.as_millis() as usize)
+        .unwrap_or(0)
+}
+
+/// message and location of the last panic on this thread (tabs and newlines removed)
+pub fn last_panic() -> String {
+    LAST_PANIC.with(|p| p.borrow().clone()).replace(['\t', '\n'], " ")
+}
+pub fn verbose_panics() -> bool {
+    std::env::var("VH_PANIC_INFO").is_ok()
 }
